@@ -91,7 +91,7 @@ def semantics_and_table(ck):
     f = d / "obs.json"
     f.write_text(json.dumps({"obs": obs, "dir": pub}))
     r = core.run_tlc(PID, "SandboxTable",
-                     "SPECIFICATION Spec\nINVARIANT C19_ClassificationSound\nINVARIANT C19_FixCoversExactly\n",
+                     "SPECIFICATION Spec\nINVARIANT C19_ClassificationSound\nINVARIANT C19_OperationalLookupExact\n",
                      workers=4, env={"OBS_FILE": str(f)}, name="table", timeout=1200)
     ck.add_tlc(r, "SandboxTable: container semantics + C19_GateCoversMutators on the real verdict matrix")
     cases, rep = [], None
@@ -133,8 +133,8 @@ def semantics_and_table(ck):
     ck.evaluations += sum(len(v) for v in obs.values())
     ck.extra["gate_overblocks_non_mutators"] = rep["overblocked"]
     ck.extra["python_names_not_classified_by_spec"] = rep["unclassified"]
-    ck.extra["design_uncovered_by_first_match_lookup"] = rep["design_uncovered"]
-    ck.extra["repaired_lookup_uncovered"] = rep["fixed_uncovered"]
+    ck.extra["uncovered_by_legacy_first_match_lookup"] = rep["legacy_uncovered"]
+    ck.extra["transcribed_lookup_uncovered"] = rep["op_uncovered"]
     if rep["drift"]:
         ck.extra.setdefault("drift", []).append(
             {"what": "SandboxRules.OpModifies (transcription of _mutable_spec) differs from the real "
@@ -156,19 +156,21 @@ KINDS = ["list", "dict", "set", "deque"]
 
 def design_model(ck):
     quick = ck.tier == "quick"
-    r = su.gate_model(PID, "gate_model", [su.conf_tla("immutable", "abstract"), su.conf_tla("immutable", "fixed")],
+    r = su.gate_model(PID, "gate_model", [su.conf_tla("immutable", "abstract"), su.conf_tla("immutable", "operational")],
                       1 if quick else 2, KINDS, [],
                       ["TypeOK", "C19_DataUnchanged", "C19_GateCoversMutators", "C17_NoTaintedUse"],
                       coverage=quick, timeout=3000)
-    ck.add_tlc(r, "SandboxGate immutable: abstract gate and repaired lookup (fixes/F8-F9)")
+    ck.add_tlc(r, "SandboxGate immutable: abstract gate and transcription of sandbox.py")
     if quick:
-        ck.require_coverage(r, ["MFetch", "Gate", "Deliver", "DeliverUndefined", "MCallGate", "MRun", "MUse"])
+        su.require_cov(ck, r, ["MFetch", "Gate", "Deliver", "DeliverUndefined", "MCallGate", "MRun", "MUse"])
         return
-    # the design as implemented (first matching ABC row decides): TLC must exhibit the defect
-    r = su.gate_model(PID, "gate_operational", [su.conf_tla("immutable", "operational")], 1, KINDS, [],
+    # the lookup shipped before f0317ed (first matching ABC row decides): TLC must exhibit the defect
+    r = su.gate_model(PID, "gate_legacy", [su.conf_tla("immutable", "legacy")], 1, KINDS, [],
                       ["C19_DataUnchanged"], timeout=3000)
-    ck.add_tlc(r, "SandboxGate immutable, transcription of sandbox.py (counter-example expected)", expect_ok=False)
+    ck.add_tlc(r, "SandboxGate immutable, pre-fix first-match lookup (counter-example expected: F8/F9)", expect_ok=False)
     ck.extra["TLC_exhibits_design_defect_of_first_match_lookup"] = bool(r.invariant_violated)
+    if not r.invariant_violated:
+        raise core.MachineryError("self-test failed: the legacy first-match lookup showed no counter-example")
 
 
 # ---------------------------------------------------------------------------
@@ -243,7 +245,7 @@ def method_sweep(ck, cases):
             effective = [c for c in cs if [norm_state(kind, x) for x in c["r"]] != [norm_state(kind, c["s"])]] \
                 if "r" in cs[0] else []
             if quick:
-                pick = (rnd.sample(effective, min(2, len(effective))) or []) + rnd.sample(cs, min(1, len(cs)))
+                pick = (rnd.sample(effective, min(1, len(effective))) or []) + rnd.sample(cs, min(1, len(cs)))
                 routes = QUICK_ROUTES
             else:
                 pick = cs
@@ -337,7 +339,7 @@ def filter_templates(env_filters, quick):
         srcs = list(FILTER_SPECIFIC.get(f, []))
         for x in DATA_VARS:
             srcs.append("{{ %s|%s }}" % (x, f))
-            for y in (DATA_VARS if not quick else ["lst", "dct", "lol"]):
+            for y in (DATA_VARS if not quick else ["lst"]):
                 srcs.append("{{ %s|%s(%s) }}" % (x, f, y))
                 if not quick:
                     srcs.append("{{ %s|%s(1, %s) }}" % (x, f, y))
@@ -364,7 +366,9 @@ def filter_sweep(ck):
 
     quick = ck.tier == "quick"
     names = ImmutableSandboxedEnvironment().filters
-    jobs = [(f, s, a) for f, s in filter_templates(names, quick) for a in (False, True)]
+    rnd = random.Random(ck.seed + 7)
+    jobs = [(f, s, a) for f, s in filter_templates(names, quick) for a in (False, True)
+            if not (quick and a and f not in FILTER_SPECIFIC and rnd.random() < 0.5)]
     missing = sorted(set(names) - {j[0] for j in jobs})
     if missing:
         raise core.MachineryError(f"filters without a sweep template: {missing}")
@@ -401,16 +405,17 @@ def report_filter(ck, jobs, traces, rejected):
 
 def run(ck):
     su.load_own_findings(ck, PID)
+    bg = su.Background(design_model, ck)      # TLC on the design model runs while the engine is exercised
     cases = semantics_and_table(ck)
-    design_model(ck)
     mtraces = method_sweep(ck, cases)
     fjobs, ftraces = filter_sweep(ck)
     # code->spec: one batch, TLC accepts or rejects every trace
     strip = [{k: v for k, v in t.items() if k not in ("src", "case")} for t in mtraces] + ftraces
-    rejected = su.validate(ck, PID, strip, "traces")
+    rejected = su.validate(ck, PID, strip, "traces", parallel=2 if ck.tier == "quick" else 6)
     nm_ = len(mtraces)
     report_method(ck, mtraces, [(i, st) for i, st in rejected if i < nm_])
     report_filter(ck, fjobs, ftraces, [(i - nm_, st) for i, st in rejected if i >= nm_])
+    bg.join()
     ck.exhaustive = ck.tier != "quick"
     ck.extra["exhaustive_note"] = ("every public name dir() shows on list/dict/set/deque x every route; argument / state "
                                    "combinations are the specification's enumeration (all of them in thorough, a seeded "
